@@ -16,6 +16,8 @@ import (
 	"github.com/cosmos/cosmos-sdk/types/query"
 	"github.com/cosmos/cosmos-sdk/x/authz"
 	aoltypes "github.com/medibloc/panacea-core/v2/x/aol/types"
+	didtypes "github.com/medibloc/panacea-core/v2/x/did/types"
+	pnfttypes "github.com/medibloc/panacea-core/v2/x/pnft/types"
 
 	"verif/engine/explore"
 	"verif/engine/report"
@@ -178,6 +180,7 @@ func aolOps(acc aolAccounts, v aolVariant) []explore.Op {
 				aoltypes.NewMsgAddWriter(p.t, "mon."+wr.Name, "", wr.Bech, p.o.Bech)))
 		}
 	}
+	ops = append(ops, txOp("AddWriter(A,a,W,moniker=revised)", s(A), aoltypes.NewMsgAddWriter("a", "revised", "changed description", W.Bech, A.Bech)))
 	for _, p := range pairs {
 		ops = append(ops, txOp(fmt.Sprintf("DeleteWriter(%s,%s,W)", p.o.Name, p.t), s(p.o), aoltypes.NewMsgDeleteWriter(p.t, W.Bech, p.o.Bech)))
 	}
@@ -256,12 +259,78 @@ func aolOps(acc aolAccounts, v aolVariant) []explore.Op {
 // Oracles
 // ---------------------------------------------------------------------------------------------
 
+// refSigners is the reference's own idea of who must sign a message - written from the property statements, NOT taken
+// from the message's GetSigners (a GetSigners that names the wrong party is exactly one of the defects to be found):
+// AOL topic/writer messages: the owner; add-record: the writer, preceded by the fee payer when one is named;
+// DID messages: the relaying account; PNFT messages: the actor named in the message; authz: granter / grantee.
+func refSigners(msg sdk.Msg) []sdk.AccAddress {
+	a := func(ss ...string) []sdk.AccAddress {
+		var out []sdk.AccAddress
+		for _, s := range ss {
+			x, err := sdk.AccAddressFromBech32(s)
+			if err != nil {
+				return nil
+			}
+			dup := false
+			for _, o := range out {
+				if o.Equals(x) {
+					dup = true
+				}
+			}
+			if !dup {
+				out = append(out, x)
+			}
+		}
+		return out
+	}
+	switch x := msg.(type) {
+	case *aoltypes.MsgCreateTopicRequest:
+		return a(x.OwnerAddress)
+	case *aoltypes.MsgAddWriterRequest:
+		return a(x.OwnerAddress)
+	case *aoltypes.MsgDeleteWriterRequest:
+		return a(x.OwnerAddress)
+	case *aoltypes.MsgAddRecordRequest:
+		if x.FeePayerAddress != "" {
+			return a(x.FeePayerAddress, x.WriterAddress)
+		}
+		return a(x.WriterAddress)
+	case *didtypes.MsgCreateDIDRequest:
+		return a(x.FromAddress)
+	case *didtypes.MsgUpdateDIDRequest:
+		return a(x.FromAddress)
+	case *didtypes.MsgDeactivateDIDRequest:
+		return a(x.FromAddress)
+	case *pnfttypes.MsgCreateDenomRequest:
+		return a(x.Creator)
+	case *pnfttypes.MsgUpdateDenomRequest:
+		return a(x.Updater)
+	case *pnfttypes.MsgDeleteDenomRequest:
+		return a(x.Remover)
+	case *pnfttypes.MsgTransferDenomRequest:
+		return a(x.Sender)
+	case *pnfttypes.MsgMintPNFTRequest:
+		return a(x.Creator)
+	case *pnfttypes.MsgTransferPNFTRequest:
+		return a(x.Sender)
+	case *pnfttypes.MsgBurnPNFTRequest:
+		return a(x.Burner)
+	case *authz.MsgGrant:
+		return a(x.Granter)
+	case *authz.MsgRevoke:
+		return a(x.Granter)
+	case *authz.MsgExec:
+		return a(x.Grantee)
+	}
+	return msg.GetSigners() // SDK messages (bank, vesting): their signer rules are not this repository's
+}
+
 // signersCover reports whether the accounts that really signed equal the tx's required signer list.
 func signersCover(msgs []sdk.Msg, signers []*world.Account) bool {
 	var req []string
 	seen := map[string]bool{}
 	for _, m := range msgs {
-		for _, a := range m.GetSigners() {
+		for _, a := range refSigners(m) {
 			if !seen[string(a)] {
 				seen[string(a)] = true
 				req = append(req, string(a))
@@ -388,7 +457,7 @@ func aolModelMsg(m *aolModel, msg sdk.Msg, ts int64) (bool, string) {
 			return false, err.Error()
 		}
 		for _, im := range inner {
-			sg := im.GetSigners()
+			sg := refSigners(im)
 			if len(sg) != 1 {
 				return false, "exec of multi-signer message"
 			}
